@@ -138,16 +138,20 @@ func (w *world) line(tok int) string {
 	if s, ok := w.text[tok]; ok {
 		return s
 	}
-	n := 10 + w.r.Intn(60)
+	// sizes follow the model's abstraction (DirReader!Sz): every short line has the same length, every long line
+	// (longer than the 4096-byte read buffer) has the same length, so that "the new file is exactly as large as
+	// the old one" happens in reality whenever it happens in the model
+	total := 48
 	if tok%3 == 0 {
-		n = 4097 + w.r.Intn(6000) // longer than the 4096-byte read buffer
+		total = 5000
 	}
 	const al = "abcdefghijklmnopqrstuvwxyz0123456789 =:()\"'"
-	b := make([]byte, n)
+	prefix := fmt.Sprintf("L%d-", tok)
+	b := make([]byte, total-len(prefix))
 	for i := range b {
 		b[i] = al[w.r.Intn(len(al))]
 	}
-	s := fmt.Sprintf("L%d-%s", tok, b)
+	s := prefix + string(b)
 	w.text[tok] = s
 	return s
 }
